@@ -158,7 +158,7 @@ impl Tamper {
             Tamper::Delete { path } => format!("delete {path}"),
             Tamper::MetaEdit { path, what, .. } => format!("metadata edit of {path}: {what}"),
             Tamper::OlderMeta { path, which, .. } => format!("replace {path} by its own earlier document #{which}"),
-            Tamper::LegacyDowngrade { path, what, stage, payload_from, .. } => format!("legacy downgrade of {path}: {what}, with the bytes of {payload_from} staged at {stage}"),
+            Tamper::LegacyDowngrade { path, what, stage, payload_from, .. } => format!("legacy downgrade of {path}: {what}, with {} staged at {stage}", if payload_from.is_empty() { "an empty object".to_string() } else { format!("the bytes of {payload_from}") }),
             Tamper::KeyExchange { to, from, both } => format!("key {to} gets the metadata document and the payload of key {from}{}", if *both { " and vice versa" } else { "" }),
         }
     }
@@ -193,7 +193,8 @@ impl Tamper {
             }
             Tamper::LegacyDowngrade { path, doc, stage, payload_from, .. } => {
                 t.insert(path.clone(), doc.clone());
-                let w = s[payload_from].clone();
+                // "" = a forged document that declares an empty object: an empty payload is staged
+                let w = if payload_from.is_empty() { vec![] } else { s[payload_from].clone() };
                 t.insert(stage.clone(), w);
             }
             Tamper::KeyExchange { to, from, both } => {
@@ -426,6 +427,33 @@ fn enumerate_tampers(s: &Snapshot, chunk: u64, bit_mask: u8, older: &BTreeMap<St
                             payload_from: (*from).clone(),
                         });
                     }
+                }
+            }
+        }
+    }
+    // (6a) forged legacy documents that need no donor and no secret: the key's own document with the
+    // declared size set to 0 and an empty chunk-tag list (nothing is left for the chunk
+    // authentication to check), without its generation pointer and subsets of the authentication
+    // fields, together with an empty object at the key's pre-0.10 payload path (seeded change C09-5)
+    {
+        let strips: [&[&str]; 4] = [&["an", "at", "g", "av", "m"], &["an", "at", "g", "av"], &["an", "at", "g"], &["g"]];
+        for (p, doc) in &metas {
+            let loc = p.strip_prefix("meta/").unwrap();
+            for st in strips {
+                let mut d = doc.clone();
+                cset(&mut d, "s", Some(Cv::Integer(0u64.into())));
+                cset(&mut d, "t", Some(Cv::Array(vec![])));
+                for f in st {
+                    cset(&mut d, f, None);
+                }
+                if let Ok(bytes) = cbor2::to_vec(&d) {
+                    out.push(Tamper::LegacyDowngrade {
+                        path: (*p).clone(),
+                        what: format!("forged document that declares an empty object (size 0, no chunk tags) without {st:?}"),
+                        doc: bytes,
+                        stage: format!("data/{loc}"),
+                        payload_from: String::new(),
+                    });
                 }
             }
         }
@@ -829,6 +857,17 @@ pub fn run_case(case: &Case, ctx: &mut CaseCtx) -> Result<(), String> {
                     }
                 }
             }
+            // compatibility mode accepts a document without any authentication field as genuine
+            // pre-0.10 metadata (documented downgrade window, closed by strict mode); a forged one
+            // that declares an EMPTY object has no chunk left to authenticate, so there it is read as
+            // an empty object by design. The forged-empty family is therefore applied in strict
+            // mode, where the documentation promises that legacy documents are rejected outright.
+            if let Tamper::LegacyDowngrade { payload_from, .. } = t {
+                if payload_from.is_empty() && !case.strict {
+                    ctx.count("forged_empty_legacy_documents_not_applied_in_compatibility_mode", 1);
+                    continue;
+                }
+            }
             exp.allow_earlier_commit = matches!(t, Tamper::OlderMeta { .. });
             let ts = t.apply(&snap);
             exp.legacy_window.clear();
@@ -972,7 +1011,7 @@ pub fn run(r: &mut Runner) {
     let tier = r.tier;
     r.sub(
         "tamper_matrix",
-        "generated write scripts (2-6 of put/multipart/copy/rename over 3 keys, sizes across chunk boundaries, chunk 7/16/64, strict and compatibility metadata_auth); after every script op: no 12-byte plaintext window in any backend object, no nonce shared by two different (chunk, ciphertext) pairs; then EVERY tamper of the family {each byte x selected bit flips (all 8 in thorough) of every payload and metadata object, every truncation length, 3 extensions, deletion, chunk-window swaps, replacement by / swap with every other backend object, structured CBOR edits of every metadata field (drop, null, take from another key's document, every subset of an/at/av/g/m stripped, size+-1, tag list edits, chunk size, re-pointed generation), the key's own earlier documents, whole-key exchanges (metadata document + payload of one key transplanted onto another, one-directional and mutual), and the two-site legacy downgrade (every donor document - another key's or an earlier one - without its generation pointer and without subsets of an/at/av/m, installed for every key together with the donor's payload staged at the key's pre-0.10 payload path data/<key>)} is applied to a copy of the backend and every read path (get, 8 range shapes, get_ranges, head, 3 listings, copy+get, rename+get) through a fresh EncryptedStore - and, for the object-level tampers, also through an instance that had read every key before its backend was modified (warm metadata cache) - must return the written bytes or fail. Non-trivial = at least one read was made to fail by a tamper",
+        "generated write scripts (2-6 of put/multipart/copy/rename over 3 keys, sizes across chunk boundaries, chunk 7/16/64, strict and compatibility metadata_auth); after every script op: no 12-byte plaintext window in any backend object, no nonce shared by two different (chunk, ciphertext) pairs; then EVERY tamper of the family {each byte x selected bit flips (all 8 in thorough) of every payload and metadata object, every truncation length, 3 extensions, deletion, chunk-window swaps, replacement by / swap with every other backend object, structured CBOR edits of every metadata field (drop, null, take from another key's document, every subset of an/at/av/g/m stripped, size+-1, tag list edits, chunk size, re-pointed generation), the key's own earlier documents, whole-key exchanges (metadata document + payload of one key transplanted onto another, one-directional and mutual), and the two-site legacy downgrade (every donor document - another key's or an earlier one - without its generation pointer and without subsets of an/at/av/m, installed for every key together with the donor's payload staged at the key's pre-0.10 payload path data/<key>; in strict mode also forged documents that declare an empty object, with an empty object staged there)} is applied to a copy of the backend and every read path (get, 8 range shapes, get_ranges, head, 3 listings, copy+get, rename+get) through a fresh EncryptedStore - and, for the object-level tampers, also through an instance that had read every key before its backend was modified (warm metadata cache) - must return the written bytes or fail. Non-trivial = at least one read was made to fail by a tamper",
         (400, 12000),
         move || case_strategy(tier),
         run_case,
